@@ -1443,4 +1443,21 @@ Tokens""")]),
                                     and scanned[return_tokens[0]][0].rstrip().endswith(":")""", """                                    if len(scanned[return_tokens[0]]) == 1
                                     and isinstance(scanned[return_tokens[0]][0], str)
                                     and scanned[return_tokens[0]][0].rstrip().startswith("Tuple")""")]),
+    # ---- LIVE-SIG (C19), DEFAULT-KIND ast.parse (C06)
+    dict(id="livesig-first-parameter-no-default", kind=B, props=["C19"], expect="LIVE-SIG", edits=[("parse.py",
+         """            next(iter(sig.parameters), None), "static\"""", """            next(iter(sig.parameters.values())).name, "static\"""")]),
+    dict(id="livesig-empty-dict-fallback", kind=B, props=["C19"], expect="LIVE-SIG", edits=[("parse.py",
+         """    ir = docstring(doc, emit_default_doc=is_function)  # without a docstring: the empty description""",
+         """    ir = docstring(doc, emit_default_doc=is_function) if doc else {}""")]),
+    dict(id="livesig-neutral-guarded-first-parameter", kind=N, props=["C19"], expect="silent", edits=[("parse.py",
+         """            next(iter(sig.parameters), None), "static\"""", """            next(iter(sig.parameters)) if sig.parameters else None, "static\"""")]),
+    dict(id="defaultkind-return-default-parsed-unconditionally", kind=B, props=["C06"], expect="DEFAULT-KIND", edits=[("emit.py",
+         """                                            # a number or a boolean is its own constant; only text is parsed
+                                            or not isinstance(
+                                                intermediate_repr["returns"][
+                                                    "return_type"
+                                                ]["default"],
+                                                str,
+                                            )
+""", "")]),
 ]
